@@ -64,6 +64,26 @@ CLAIMED = {
          "Structural clauses: header and every row have length 2*(depth+1)+1 with the depth taken from the same two-way choice; flush discipline (append mode, fresh buffer after each flush, identical row to file and memory buffers, flush at num_cached_uses, final flush before the traces are dropped) -- which makes the file content independent of the threshold by construction; the position argument of each of the 24 addUse call sites is classified, ordinals of default-skipping streams are reported (8 known findings on the pinned tree). Row order and stamp monotonicity are NOT decided.",
          "Trusts: the iteration-kind recogniser (sa/sites.py).",
          "DESIGN.md section 3, C16"),
+ "C13": ("writer/reader key-set agreement by literal extraction, def-use check that the caller's default reaches every squeeze test and constructor, entropy-source audit with seed-dominates-draw on the CFG",
+         "THIN: round-trip equality is NOT decided. Decided are three necessary structural preconditions: YAML/dict writer and reader key sets agree (root written as [root], read with [0]); zero-squeezing compares with the caller's default at every level and forwards it to every Fiber/Tensor built; random construction draws only from the seeded random stream, seeding precedes every draw, recursion does not re-seed.",
+         "Trusts: yaml dump/load round-trips plain dict/list/scalars.",
+         "DESIGN.md section 3, C13"),
+ "C17": ("resource pairing on the CFG (temp files removed / readers closed on every path), callback-slot arity agreement between two policies and the call sites, stale-loop-variable rule via reaching definitions, two-finger recogniser on the trace combiners",
+         "THIN: traffic values, the buffet window rule and cache optimality are NOT decided. Decided: every temp file created by _bufferTraffic is removed (and its reader closed first) on every path to a return; the six policy callbacks of both policies match the call sites in parameter count and returned tuple arity and are passed in slot order; in every loop over the bindings tensor/rank/type are bound from the current binding inside that loop; _combineTraces is a stable merge with ties to the read trace and filterTrace the two-pointer scan.",
+         "Trusts: nothing about the numbers.",
+         "DESIGN.md section 3, C17"),
+ "C18": ("literal extraction of the spec default table, polynomial (sum-of-products) normal form of the footprint expressions, aggregation-shape checks, effect summaries",
+         "Structural clauses: default table (0 bits / 'C' / 'contiguous'); fiber footprint normalises to fhbits + pbits*n + cbits*n with n = occupancy for C and shape for U; rank = rhbits + sum over the raw rank list, tensor = root + sum over rank ids, root = hbits + pbits; sub-tree work-list adds each popped fiber once and walks children with iterShape for U / iterOccupancy otherwise; the queries are effect-free. Numeric totals are NOT decided (they follow from C02 + these formulas).",
+         "Trusts: C02 (the rank lists mirror the tree).",
+         "DESIGN.md section 3, C18"),
+ "C19": ("mirror-symmetry comparison of branch summaries under the renaming 0<->1, counting-site placement, use-only-as-receiver check on payload variables, polynomial normal form of the latency formula",
+         "THIN: the counts are NOT decided. Decided: two-finger and skip-ahead models treat the operands symmetrically (the > branch is the mirror of the < branch incl. end-of-fiber forwarding), count once per iteration resp. once per match + once per run, leader-follower subtracts the header exactly once; the swap model reads coordinates only and charges next_latency*(lists+elements) in the finite-latency leg.",
+         "Trusts: nothing about the numbers.",
+         "DESIGN.md section 3, C19"),
+ "C20": ("sibling cross-check of the encodeFiber implementations registered for U/C/B, registry/interface exhaustiveness against the base class placeholders, shared key constructor",
+         "THIN: decode round trips, lookups and sizes are NOT decided. Decided: every encodeFiber of U, C, B (and Codec.encode) forwards the imposed shape to the next rank; the registry maps U, C, B to classes overriding the placeholder methods the slice API calls; producers and the output dictionary share Codec.get_keys.",
+         "Trusts: nothing about the encoded arrays.",
+         "DESIGN.md section 3, C20"),
 }
 
 NOT_APPLICABLE = {
